@@ -256,3 +256,58 @@ Theorem C10_same_shape_same_result : forall c c',
   recls_case (fun _ => XUser) c = recls_case (fun _ => XUser) c' -> run_any c = run_any c'.
 Proof. exact any_same_shape_same_result. Qed.
 Print Assumptions C10_same_shape_same_result.
+
+(* ---- the Exception class a PROVIDER / body / flush body raises (Futures.pout PRaise c e): the raised
+   instance becomes the future's error whatever its class - also FutureIsAlreadyComputed about another
+   future (PDouble: genuinely raised by a second set_value on a shared promise), AssertionError,
+   StopIteration, BatchingError ... ; a generator body is subject to PEP 479 only ---- *)
+
+Theorem C10_lazy_read_completes : forall s o,
+  fkind s = KLazy -> out s = None -> is_computing_read o = true ->
+  (forall e rest, prov s <> PBase e :: rest) ->
+  let s' := fst (step s o) in
+  exists oc, out s' = Some oc /\ runs s' = S (runs s) /\ log s' = log s ++ notes (subs s) oc /\
+    snd (step s o) = report o oc /\
+    match prov s with
+    | PRaise _ e :: _ => oc = Err e
+    | PDouble :: _ => oc = Err E_ALREADY
+    | PRet v :: _ => oc = Ok v
+    | _ => oc = Ok VNone
+    end.
+Proof. exact lazy_read_completes. Qed.
+Print Assumptions C10_lazy_read_completes.
+
+Theorem C10_provider_class_step : forall f s o, (fkind s = KTask -> gen_cls_ok f) ->
+  step (pstate f s) o = (pstate f (fst (step s o)), snd (step s o)).
+Proof. exact step_pstate. Qed.
+Print Assumptions C10_provider_class_step.
+
+Theorem C10_provider_class_irrelevant : forall f k p o ops, (k = KTask -> gen_cls_ok f) ->
+  run_case k (map (recls_pout f) p) o ops = run_case k p o ops.
+Proof. exact provider_class_irrelevant. Qed.
+Print Assumptions C10_provider_class_irrelevant.
+
+Theorem C10_lazy_provider_class_irrelevant : forall f p o ops,
+  run_case KLazy (map (recls_pout f) p) o ops = run_case KLazy p o ops.
+Proof. exact lazy_provider_class_irrelevant. Qed.
+Print Assumptions C10_lazy_provider_class_irrelevant.
+
+Theorem C10_task_provider_class_irrelevant : forall f ph fin ops, gen_cls_ok f ->
+  run_task ph (recls_pout f fin) ops = run_task ph fin ops.
+Proof. exact task_provider_class_irrelevant. Qed.
+Print Assumptions C10_task_provider_class_irrelevant.
+
+Theorem C10_batch_provider_class_irrelevant : forall f its fin ops,
+  run_batch its (recls_pout f fin) ops = run_batch its fin ops.
+Proof. exact batch_provider_class_irrelevant. Qed.
+Print Assumptions C10_batch_provider_class_irrelevant.
+
+Theorem C10_any_provider_class_irrelevant : forall f c,
+  (generator_body c = true -> gen_cls_ok f) -> run_any (precls_case f c) = run_any c.
+Proof. exact any_provider_class_irrelevant. Qed.
+Print Assumptions C10_any_provider_class_irrelevant.
+
+Theorem C10_pep479_respecting_relabelling_exists :
+  gen_cls_ok (fun c => match c with XStopIteration => XStopIteration | _ => XAlreadyComputed end).
+Proof. exact gen_cls_ok_example. Qed.
+Print Assumptions C10_pep479_respecting_relabelling_exists.
